@@ -136,6 +136,14 @@ theorem runActs_wf (acts : List Act) (x : Ctx) {s : S} (h : s.WF) : (runActs s x
     | seed n => exact ih (s := ((s.bumpPc x.rid).newGen n).setRt _ _) hb
     | raise => exact hb
     | defer r c d => exact ih (s := ((s.bumpPc x.rid).setRt _ _).add _ _ _) hb
+    | save k r =>
+      simp only
+      repeat' split
+      all_goals exact ih hb
+    | restore k r =>
+      simp only
+      repeat' split
+      all_goals exact ih hb
     | draw => exact ih (s := { (s.bumpPc x.rid).emit _ with draws := _ }) hb
     | pull r =>
       apply ih
@@ -298,6 +306,14 @@ theorem runActs_sysOnly (acts : List Act) (x : Ctx) (hx : x.clk = .sys) {s : S} 
       have hg : SysOnly ((s.bumpPc x.rid).newGen n) := hb.of_same rfl (fun _ => ⟨rfl, rfl⟩)
       refine hg.setRt x.rid _ ?_ ?_ <;> first | rfl | simp [hb.clock x.rid]
     | raise => refine hb.setRt x.rid _ ?_ ?_ <;> simp [hb.clock x.rid]
+    | save k r =>
+      simp only
+      repeat' split
+      all_goals first | exact ih' hb | exact ih' (hb.of_same rfl (fun _ => ⟨rfl, rfl⟩))
+    | restore k r =>
+      simp only
+      repeat' split
+      all_goals first | exact ih' hb | exact ih' (hb.of_same rfl (fun _ => ⟨rfl, rfl⟩))
     | defer r c d =>
       have hc : c = .sys := by have := hacts (.defer r c d) (by simp); simpa [Act.sysOnly] using this
       subst hc
@@ -324,12 +340,12 @@ theorem exec_sysOnly {s : S} (h : SysOnly s) {e : Entry} (he : e ∈ s.pend) : S
 theorem drawIdxs_cons (g : Nat) (ev : Ev) (tr : List Ev) :
     drawIdxs g (ev :: tr) = drawIdxs g tr ++
       (match ev with
-       | .draw _ g' i => if g' = g then [i] else []
+       | .draw _ g' _ i => if g' = g then [i] else []
        | _ => []) := by
   unfold drawIdxs
   simp only [List.reverse_cons, List.filterMap_append, List.filterMap_cons, List.filterMap_nil]
   cases ev with
-  | draw r g' i =>
+  | draw r g' sd i =>
     simp only
     by_cases h : g' = g
     · simp [h]
@@ -342,13 +358,13 @@ def DrawInv (s : S) : Prop := ∀ g, drawIdxs g s.trace = List.range (s.draws g)
 theorem DrawInv.of_same {s s' : S} (h : DrawInv s) (ht : s'.trace = s.trace) (hd : s'.draws = s.draws) :
     DrawInv s' := by intro g; rw [ht, hd]; exact h g
 
-theorem DrawInv.emit {s : S} (h : DrawInv s) (ev : Ev) (hev : ∀ r g i, ev ≠ .draw r g i) :
+theorem DrawInv.emit {s : S} (h : DrawInv s) (ev : Ev) (hev : ∀ r g sd i, ev ≠ .draw r g sd i) :
     DrawInv (s.emit ev) := by
   intro g
   show drawIdxs g (ev :: s.trace) = _
   rw [drawIdxs_cons]
   cases ev with
-  | draw r g' i => exact absurd rfl (hev r g' i)
+  | draw r g' sd i => exact absurd rfl (hev r g' sd i)
   | _ => simp; exact h g
 
 theorem schedAll_draws (s : S) (l : List Nat) : (s.schedAll l).draws = s.draws := by
@@ -375,7 +391,7 @@ theorem runSub_drawInv (acts : List Act) (r : Nat) {s : S} (h : DrawInv s) : Dra
       simp only
       apply ih
       intro g
-      show drawIdxs g (Ev.draw r _ _ :: (s.bumpPc r).trace) = _
+      show drawIdxs g (Ev.draw r _ _ _ :: (s.bumpPc r).trace) = _
       rw [drawIdxs_cons]
       simp only
       by_cases hg : ((s.bumpPc r).rts r).gen = g
@@ -397,10 +413,15 @@ theorem pull_drawInv {s : S} (h : DrawInv s) (b r : Nat) : DrawInv (s.pull b r) 
     · exact runSub_drawInv _ _ (hc.of_same rfl rfl)
     · exact hc
 
-theorem runActs_drawInv (acts : List Act) (x : Ctx) {s : S} (h : DrawInv s) : DrawInv (runActs s x acts) := by
+/-- No action assigns a `rand_state` (which rewinds a generator on purpose). -/
+def NoRestore (acts : List Act) : Prop := ∀ k r, Act.restore k r ∉ acts
+
+theorem runActs_drawInv (acts : List Act) (x : Ctx) (hnr : NoRestore acts) {s : S} (h : DrawInv s) :
+    DrawInv (runActs s x acts) := by
   induction acts generalizing s with
   | nil => exact h.of_same rfl rfl
   | cons a rest ih =>
+    have ih := fun {s : S} (h : DrawInv s) => ih (fun k r hm => hnr k r (by simp [hm])) h
     have hb : DrawInv (s.bumpPc x.rid) := h.of_same rfl rfl
     unfold runActs
     simp only
@@ -434,12 +455,17 @@ theorem runActs_drawInv (acts : List Act) (x : Ctx) {s : S} (h : DrawInv s) : Dr
     | seed n => exact ih (hb.of_same (s' := ((s.bumpPc x.rid).newGen n).setRt _ _) rfl rfl)
     | raise => exact hb.of_same rfl rfl
     | defer r c d => exact ih (hb.of_same (s' := ((s.bumpPc x.rid).setRt _ _).add _ _ _) rfl rfl)
+    | save k r =>
+      simp only
+      repeat' split
+      all_goals exact ih hb
+    | restore k r => exact absurd (by simp) (hnr k r)
     | pull r => exact ih (pull_drawInv hb _ _)
     | draw =>
       simp only
       apply ih
       intro g
-      show drawIdxs g (Ev.draw x.rid _ _ :: (s.bumpPc x.rid).trace) = _
+      show drawIdxs g (Ev.draw x.rid _ _ _ :: (s.bumpPc x.rid).trace) = _
       rw [drawIdxs_cons]
       simp only
       by_cases hg : ((s.bumpPc x.rid).rts x.rid).gen = g
@@ -450,11 +476,12 @@ theorem runActs_drawInv (acts : List Act) (x : Ctx) {s : S} (h : DrawInv s) : Dr
         simp only [hg, hg', if_false, List.append_nil]
         exact hb g
 
-theorem exec_drawInv {s : S} (h : DrawInv s) (e : Entry) : DrawInv (s.exec e) := by
+theorem exec_drawInv {s : S} (h : DrawInv s) (e : Entry) (hnr : NoRestore (s.rts e.rid).script) :
+    DrawInv (s.exec e) := by
   unfold S.exec
   simp only
   split
-  · apply runActs_drawInv
+  · apply runActs_drawInv _ _ (fun k r hm => hnr k r (List.mem_of_mem_drop hm))
     exact DrawInv.emit (s := { s with pend := _, mainSecs := _ }) (h.of_same rfl rfl) _ (by intros; simp)
   · exact h.of_same rfl rfl
 
